@@ -371,10 +371,11 @@ fn parse_date_str_to_timestamps(date_str: &str) -> Option<i64> {
             .map_or(format!("{} {}", now.format("%b"), now.format("%d")), |m| {
                 m.as_str().to_string()
             });
-        // If no year input.
-        let year = captures
-            .get(2)
-            .map_or(now.year(), |m| m.as_str().parse().unwrap());
+        // If no year input. (`\d` also matches digits that `parse` does not accept.)
+        let year = match captures.get(2) {
+            Some(m) => m.as_str().parse().ok()?,
+            None => now.year(),
+        };
         // If the user does not enter a specific time, it will be filled with 0
         let time_str = captures.get(3).map_or("00:00:00", |m| m.as_str());
         let date_time_str = format!("{month_day}, {year} {time_str}");
